@@ -38,7 +38,9 @@ class C22(core.Check):
                   "decoding and the ed25519 check stay parameters): verify_key_authority (acceptance means the check passed under the key embedded in the id "
                   "for non-transferable 'B' ids ONLY, otherwise under the key the keep holds for the id), verify_unknown_id_rejected ('D'/'E' id absent from "
                   "the keep), verify_retired_key_rejected (rotated id: a signature good only under the embedded, retired key is refused), verifyM_safe, "
-                  "authentic_keyed (authentic with the key spelled out). Nothing is _partial; unforgeability of ed25519 and the internals of Memoer.verify are hypotheses, "
+                  "authentic_keyed (authentic with the key spelled out); KEY MANAGEMENT BETWEEN PASSES (model runKeyed: batches and keep updates, verify over "
+                  "the keep current at each step): verify_depends_only_on_current_keep (no key state besides the keep), setKeep_lookup, "
+                  "verify_after_rotation (after keep[vid] := q2 only the key of q2 counts, whatever was verified before), keyed_history_total. Nothing is _partial; unforgeability of ed25519 and the internals of Memoer.verify are hypotheses, "
                   "exercised by the correspondence with real pysodium.")
     level_note = ("Trusted: Lean kernel + propext/Classical.choice/Quot.sound; translator harness/extract/memo.py; the decoding of qualified Base64 material and the ed25519 check inside "
                   "Memoer.verify are parameters of the model, tabulated by an independent reference in the harness (stdlib base64 + pysodium) for every "
@@ -50,7 +52,8 @@ class C22(core.Check):
             "batches with one of: single-byte mutation at a random/structural position, truncation, structured malformed grams (unknown/ack codes, bad "
             "Base64 digits, non-UTF-8 code/mid/vid/body, gram number >= count, count 0, wrong-key / swapped / foreign signatures, unsigned grams when "
             "authic, attacker zeroth gram first, empty datagram), random bytes (biased to pass wiff); signers include strangers (a 'D' id absent "
-            "from the keep) and a ROTATED 'D' identifier (keep holds key 6 for the id of key 7): memos signed with the retired key, and with the current one.  non-trivial = at least one datagram is not a "
+            "from the keep) and a ROTATED 'D' identifier (keep holds key 6 for the id of key 7): memos signed with the retired key, and with the current one; "
+            "a quarter of the cases CHANGE the keep between service passes (rotate / revoke / restore the key of a 'D' id already heard from) and go on.  non-trivial = at least one datagram is not a "
             "genuine gram; distinct by request line")
     trusted_base = ["translator harness/extract/memo.py (Sizes, codexes, except-clause class sets)",
                     "correspondence harness/props/C22.py: compiled model vs real Memoer (echo transport, real pysodium)",
@@ -70,6 +73,8 @@ class C22(core.Check):
         z = A.ref_gram("bAAA", False, m, 2, b"ab")
         sg = build_memo("bAAC", False, A.mid_of(5), b"hello world", 0, 6, 50)
         sgb = build_memo("bAAG", True, A.mid_of(6), "héllo wörld".encode(), 1, 5, 4)
+        sg2 = build_memo("bAAC", False, A.mid_of(17), b"three gram signed memo", 0, 6, 8)[:3] if False else build_memo("bAAC", False, A.mid_of(17), b"abcdefghijklmnopq", 0, 6, 6)
+        sgb2 = build_memo("bAAG", True, A.mid_of(18), b"abcdefghijklmnopq", 3, 6, 6)
         bad = bytearray(sg[0]); bad[40] = ord("!")
         bads = bytearray(sg[0]); bads[-5] = ord("!")
         badf = bytearray(sg[0]); badf[40] = 0xff
@@ -89,9 +94,21 @@ class C22(core.Check):
             ("rx", True, [[(g, 2) for g in sgb]], "genuine signed b2, D vid"),
             ("rx", True, [[(sg[0], 1), (b"", 1), (sg[0], 1)], []], "empty datagram stops the loop"),
             ("rx", True, [[(z, 1), (A.ref_gram("bAAB", False, m, 1, b"cd"), 1)]], "unsigned when authic"),
+            # downgrade: the zeroth gram of a signed memo is accepted, then a later gram with the UNSIGNED code names its mid, before the genuine one
+            ("rx", True, [[(sg2[0], 1), (A.ref_gram("bAAB", False, A.mid_of(17), 1, b"EVIL!"), 1), (sg2[1], 1), (sg2[2], 1)]], "downgraded later gram, b64"),
+            ("rx", True, [[(sgb2[0], 3)], [(A.ref_gram("bAAF", True, A.mid_of(18), 2, b"EVIL!"), 3), (sgb2[1], 3)], [(sgb2[2], 3)]], "downgraded later gram, b2"),
+            ("rx", True, [[(sg2[0], (1)), (A.ref_gram("bAAF", False, A.mid_of(17), 2, b"EVIL!"), 1), (sg2[1], 1)]], "downgraded, genuine one never comes"),
             ("rx", True, [[(g, 1) for g in build_memo("bAAC", False, A.mid_of(8), b"retired key signs", 7, 6, 50)]], "rotated 'D' vid, retired key: rejected"),
             ("rx", True, [[(g, 1) for g in build_memo("bAAC", False, A.mid_of(9), b"current key signs", 6, 6, 50, 7)]], "rotated 'D' vid, current key: delivered"),
             ("rx", True, [[(g, 1) for g in build_memo("bAAG", True, A.mid_of(10), b"stranger D vid", 5, 6, 50)]], "'D' vid absent from the keep: rejected"),
+            # key rotation BETWEEN service passes: memo 1 under key 1 delivered, keep[vid 1] := key 6, memo 2 under key 6 must be delivered,
+            # a memo still signed with retired key 1 refused
+            ("rx", True, [("all", [(g, 1) for g in build_memo("bAAC", False, A.mid_of(11), b"before rotation", 1, 6, 50)]), ("keep", 1, 6),
+                          ("all", [(g, 1) for g in build_memo("bAAC", False, A.mid_of(12), b"after rotation", 6, 6, 50, 1)]),
+                          ("all", [(g, 1) for g in build_memo("bAAG", True, A.mid_of(13), b"retired key", 1, 6, 50)])], "rotation history"),
+            ("rx", True, [("all", [(g, 2) for g in build_memo("bAAG", True, A.mid_of(14), b"known", 3, 6, 50)]), ("keep", 3, None),
+                          ("all", [(g, 2) for g in build_memo("bAAG", True, A.mid_of(15), b"revoked", 3, 6, 50)]), ("keep", 3, 3),
+                          ("once", [(g, 2) for g in build_memo("bAAC", False, A.mid_of(16), b"restored", 3, 3, 50)][:1]), ("all", [])], "revoked then restored"),
         ]
 
     def exhaustive(self, tier):
@@ -136,6 +153,15 @@ class C22(core.Check):
                     rng.shuffle(order)
                 for i in order:
                     stream.append((gs[i], src))
+            # DOWNGRADE: after the zeroth gram of a signed memo, a later gram under the UNSIGNED sibling code names the same mid, before the genuine one
+            for gs, src, code, curt, ki in memos:
+                if code in A.SIGNED and len(gs) >= 2 and rng.random() < 0.6:
+                    mid = A.ref_parse(gs[0])["mid"]
+                    gn = rng.randrange(1, len(gs))
+                    forged = A.ref_gram({"bAAC": "bAAB", "bAAG": "bAAF"}[code] if rng.random() < 0.8 else rng.choice(["bAAB", "bAAF"]), curt, mid, gn, b"EVIL" + bytes([48 + gn % 10]))
+                    if (gs[0], src) in stream:
+                        at = stream.index((gs[0], src)) + 1
+                        stream.insert(at, (forged, rng.choice([src, src, rng.randrange(1, 4)])))
             # malformed / hostile additions
             for _ in range(rng.choice([1, 1, 2, 3, 5])):
                 gs, src, code, curt, ki = rng.choice(memos)
@@ -231,6 +257,22 @@ class C22(core.Check):
                     ops += ["close", (rng.choice(["all", "once"]), [rng.choice(stream)] if stream and rng.random() < 0.6 else []), "reopen"]
             if style < 0.35:
                 ops += [("once", [])] * rng.randrange(1, 5) + [("all", [])]
+            if rng.random() < 0.25:     # key management between service passes: a transferable id heard before, its key rotated / revoked, heard again
+                v = rng.choice([1, 3, 7])
+                old = {1: 1, 3: 3, 7: 6}[v]
+                new = rng.choice([6, 2, 4, None, old])
+                code = rng.choice(["bAAC", "bAAG"])
+                cu = rng.random() < 0.5
+                mk = lambda k_, t_: [(g, 1) for g in build_memo(code, cu, A.mid_of(rng.randrange(100, 200)), t_, k_, rng.choice([1, 4, 50]), rng.choice([3, 50]), v)]
+                first = ("all", mk(old, _text(rng, 8)))
+                later = [("keep", v, new)]
+                if new is not None:
+                    later.append((rng.choice(["all", "svc", "once"]), mk(new, _text(rng, 9))))
+                later.append((rng.choice(["all", "once"]), mk(old, _text(rng, 7))))                      # still signed with the previous key
+                if rng.random() < 0.3:
+                    later += [("keep", v, old), ("all", mk(old, _text(rng, 6)))]                           # rotated back
+                pos = rng.randrange(len(ops) + 1)
+                ops = ops[:pos] + [first] + ops[pos:] + later + [("once", []), ("all", [])]
             flavor = rng.choice(["memoer", "memoer", "memoer", "auth", "udp", "uxd"])
             yield ("rx", authic, ops, "gen", flavor)
 
@@ -254,6 +296,8 @@ class C22(core.Check):
         for op in A.norm_ops(case[2]):
             if isinstance(op, str):
                 ops.append(op)
+            elif op[0] == "keep":
+                ops.append(("keep", A.key(op[1])["vid"].encode(), A.key(op[2])["qvk"].encode() if op[2] is not None else None))
             else:
                 ops.append((op[0] if op[0] in ("once", "rxg") else "all", tuple((bytes(g), s) for g, s in op[1])))
         return ("rx", ("authic", bool(authic))) + tuple(vtab) + (("batches",) + tuple(ops),)
@@ -269,8 +313,9 @@ class C22(core.Check):
         authic = case[1]
         ops = [op for op in A.norm_ops(case[2])]
         bad = []
-        kp = A._kp()
-        seen = []
+        states = A.keep_states(case[2])          # what the keep holds after 0, 1, … key management steps
+        kidx = 0
+        seen = []                                # (parsed datagram, index of the keep state in force when it arrived)
         extra = [o for o in obs if o and isinstance(o[0], str) and o[0] not in ("escape",)]
         if extra:
             return sorted({o[0] for o in extra})
@@ -281,6 +326,9 @@ class C22(core.Check):
             if isinstance(op, str):
                 opened = (op == "reopen")
                 continue
+            if op[0] == "keep":
+                kidx += 1
+                continue
             nsvc += 1
             o = next(it, None)
             if o is None:
@@ -289,8 +337,12 @@ class C22(core.Check):
             if o[0] == "escape":
                 bad.append("receive-servicing-raised:" + o[1])
                 return bad
-            seen += [A.ref_parse(g) for g, _s in op[1]]
-            parsed = [p for p in seen if p]
+            for g, _s in op[1]:
+                p_ = A.ref_parse(g)
+                if p_:
+                    p_["k0"] = kidx
+                    seen.append(p_)
+            parsed = seen
             delivered, entries = o[0][1:], o[1][1:]
             qnow = o[2][1]
             if not opened and qnow != qlen + len(op[1]):
@@ -319,9 +371,11 @@ class C22(core.Check):
                     cand = vids if vids is not None else sorted({q["vid"] for q in parsed if q["zeroth"] and q["signed"] and q["mid"] == z["mid"]})
 
                     def good(p):
+                        # verifies under a keep that was in force between the arrival of the datagram and now (it may have waited in the transport)
                         if not p["signed"]:
                             return not authic
-                        return any(A.ref_verify(kp, v, p["sig"], p["fore"]) == "ok" for v in ([p["vid"]] if p["zeroth"] else cand))
+                        return any(A.ref_verify({v_: (q_, None) for v_, q_ in states[k].items()}, v, p["sig"], p["fore"]) == "ok"
+                                   for k in range(p["k0"], kidx + 1) for v in ([p["vid"]] if p["zeroth"] else cand))
                     zs = [q for q in parsed if q["zeroth"] and q["mid"] == z["mid"] and q["num"] == z["num"] and good(q)]
                     zs0 = zs + [q for q in parsed if not q["zeroth"] and q["mid"] == z["mid"] and q["num"] == 0 and good(q)]   # a later-code gram numbered 0
                     if not zs:
@@ -359,7 +413,7 @@ class C22(core.Check):
             return True
 
     def _nontrivial(self, case, obs):
-        return case[3] != "genuine" and any(not isinstance(op, str) and op[1] for op in A.norm_ops(case[2]))
+        return case[3] != "genuine" and any(not isinstance(op, str) and op[0] != "keep" and op[1] for op in A.norm_ops(case[2]))
 
     def features(self, case, obs):
         try:
@@ -369,9 +423,10 @@ class C22(core.Check):
 
     def _features(self, case, obs):
         ops = A.norm_ops(case[2])
-        svc = [op for op in ops if not isinstance(op, str)]
+        svc = [op for op in ops if not isinstance(op, str) and op[0] != "keep"]
         f = ["authic" if case[1] else "open", f"calls~{min(len(svc), 9) // 3 * 3}", "flavor:" + (case[4] if len(case) > 4 else "memoer")]
-        f += sorted({"entry:" + op[0] for op in svc}) + (["close/reopen"] if any(isinstance(op, str) for op in ops) else [])
+        f += sorted({"entry:" + op[0] for op in svc}) + (["close/reopen"] if any(isinstance(op, str) for op in ops) else []) + (
+            ["keep-changed-between-passes"] if any(not isinstance(op, str) and op[0] == "keep" for op in ops) else [])
         n = sum(len(op[1]) for op in svc)
         f.append(f"datagrams~{min(n, 12) // 3 * 3}")
         und = sum(1 for op in svc for g, _ in op[1] if A.ref_parse(g) is None)
@@ -406,7 +461,7 @@ class C22(core.Check):
         for i in range(len(ops)):
             if len(ops) > 1:
                 yield mk(ops[:i] + ops[i + 1:])
-            if not isinstance(ops[i], str):
+            if not isinstance(ops[i], str) and ops[i][0] != "keep":
                 for j in range(len(ops[i][1])):
                     yield mk(ops[:i] + [(ops[i][0], ops[i][1][:j] + ops[i][1][j + 1:])] + ops[i + 1:])
                 if ops[i][0] != "all":
@@ -420,7 +475,7 @@ class C22(core.Check):
         out = list(self.shrink(case))
         out.append(("rx", not authic, ops, note, flavor))
         for i, op in enumerate(ops):
-            if isinstance(op, str):
+            if isinstance(op, str) or op[0] == "keep":
                 continue
             for j, (g, s) in enumerate(op[1]):
                 if g:
